@@ -148,6 +148,9 @@ func checkPackages(ex filesystem.Extractor, pkgs []*extractor.Package) (views []
 				class := ""
 				if pu.Type == purl.TypeSnap {
 					class = "c14.snap_purl_type"
+				} else if pu.Name == "" {
+					// e.g. c14.empty_purl_name_java_gradlelockfile
+					class = "c14.empty_purl_name_" + classWord(ex.Name())
 				}
 				fail(i, class, "%s: package %q@%q has purl %q which the library's own parser rejects: %v", ex.Name(), cp[i].Name, cp[i].Version, s, err)
 				return
@@ -383,7 +386,7 @@ var productionPaths = map[string][]string{
 	"python/pdmlock":                     {"pdm.lock"},
 	"python/poetrylock":                  {"poetry.lock"},
 	"python/pipfilelock":                 {"Pipfile.lock"},
-	"python/condameta":                   {"opt/conda/conda-meta/pkg-1.0-py_0.json"},
+	"python/condameta":                   {"opt/conda/envs/base/conda-meta/pkg-1.0-py_0.json"},
 	"python/uvlock":                      {"uv.lock"},
 	"go/gomod":                           {"go.mod"},
 	"go/binary":                          {"usr/bin/fixture"},
@@ -847,6 +850,13 @@ type c14RenderedCase struct {
 	Layout  layouts.Layout   `json:"layout"`
 }
 
+// gradleEmptyArtifact is the class predicate of c14.empty_purl_name_java_gradlelockfile: the
+// lockfile line "group:artifact:version=..." of the record has an empty artifact field.
+func gradleEmptyArtifact(r layouts.Record) bool {
+	parts := strings.SplitN(strings.TrimSpace(r.Name+":"+r.Version), ":", 3)
+	return len(parts) == 3 && parts[1] == ""
+}
+
 func genC14Rendered(col *ev.Collector) func(t *rapid.T) c14RenderedCase {
 	formats := layouts.Formats()
 	return func(t *rapid.T) c14RenderedCase {
@@ -856,12 +866,20 @@ func genC14Rendered(col *ev.Collector) func(t *rapid.T) c14RenderedCase {
 		if c.Hostile {
 			c.Records = layouts.Hostilize(t, c.Records)
 		}
+		if c.Format == "gradle" && col.IsKnown("c14.empty_purl_name_java_gradlelockfile") {
+			for i, r := range c.Records {
+				if gradleEmptyArtifact(r) {
+					col.Excluded("c14.empty_purl_name_java_gradlelockfile")
+					c.Records[i].Name = strings.ReplaceAll(strings.TrimSuffix(r.Name, ":")+":x", "::", ":x:")
+				}
+			}
+		}
 		c.Layout = layouts.DrawLayout(t, c.Format, len(c.Records))
 		return c
 	}
 }
 
-func propC14Rendered(col *ev.Collector) func(c c14RenderedCase) (ev.Outcome, error) {
+func propC14Rendered(col *ev.Collector, honourKnown bool) func(c c14RenderedCase) (ev.Outcome, error) {
 	return func(c c14RenderedCase) (ev.Outcome, error) {
 		ex := extractorFor(c.Format)
 		if ex == nil {
@@ -876,8 +894,16 @@ func propC14Rendered(col *ev.Collector) func(c c14RenderedCase) (ev.Outcome, err
 		views, fails := checkPackages(ex, inv.Packages)
 		var firstErr error
 		for _, fl := range fails {
-			if fl.class != "" && col.IsKnown(fl.class) {
+			if honourKnown && fl.class != "" && col.IsKnown(fl.class) {
 				col.Excluded(fl.class)
+				continue
+			}
+			if os.Getenv("VERIF_C14_SURVEY") != "" {
+				sig := fl.err.Error()
+				if len(sig) > 260 {
+					sig = sig[:260]
+				}
+				fmt.Printf("SURVEY %s class=%q :: %s\n", ex.Name(), fl.class, strings.ReplaceAll(sig, "\n", " "))
 				continue
 			}
 			if firstErr == nil {
@@ -906,6 +932,6 @@ func propC14Rendered(col *ev.Collector) func(c c14RenderedCase) (ev.Outcome, err
 
 func TestC14_rendered(t *testing.T) {
 	col := ev.Get("C14")
-	checkRapid(t, col, ev.Scale(ev.IntEnv("VERIF_C14_QUICK", 2400), 6000), genC14Rendered(col), propC14Rendered(col),
+	checkRapid(t, col, ev.Scale(ev.IntEnv("VERIF_C14_QUICK", 8000), 8000), genC14Rendered(col), propC14Rendered(col, true), propC14Rendered(col, false),
 		func(c c14RenderedCase) bool { return c.Format != "" })
 }
